@@ -14,6 +14,12 @@ func ProfileFor(prop, tier string, r *Rng) *Profile {
 		}
 	}
 	p.W[KRegistry] = 0.3
+	switch prop {
+	case "C03", "C04", "C05", "C15", "C12":
+		p.Scenarios = 0.03
+	case "C01", "C11", "C19", "C13":
+		p.Scenarios = 0.01
+	}
 	scale := func(f float64, kinds ...string) {
 		for _, k := range kinds {
 			p.W[k] *= f
@@ -64,6 +70,9 @@ func ProfileFor(prop, tier string, r *Rng) *Profile {
 		scale(4, KGC)
 		scale(2, KExchange, KRemove, KRemoveEntity, KReset, KShrink, KNewBatch, KExchangeBatch)
 		scale(0.3, KMisuse, KNewObserver)
+	case "C14":
+		p.SweepEvery = 5
+		scale(2, KSweep, KNewFilter, KNext, KOpenQuery)
 	case "C15":
 		scale(8, KShrink)
 		scale(2, KRegister, KSweep, KSetRel, KRemoveEntity)
